@@ -38,7 +38,7 @@ def family_cases(rng):
     """yield (family, expected type name, encoding label, recipe, expected payloads or None)"""
     out = []
 
-    def add(fam, typ, enc, values, dtype, sentinels, expect, typeset=COMPLETE):
+    def add(fam, typ, enc, values, dtype, sentinels, expect, typeset=COMPLETE, exact=False):
         for pattern in ("none", "lead", "trail", "mid", "some"):
             if pattern != "none" and not sentinels:
                 continue
@@ -51,7 +51,7 @@ def family_cases(rng):
                     vals.insert(p + k, s)
                     if exp is not None:
                         exp.insert(p + k, None)
-            out.append({"family": fam, "type": typ, "enc": enc, "nulls": pattern, "typeset": typeset, "expect": exp,
+            out.append({"family": fam, "type": typ, "enc": enc, "nulls": pattern, "typeset": typeset, "expect": exp, "exact": exact,
                         "recipe": {"values": vals, "dtype": dtype, "index": rng.choice(["default", "str", "dup"]),
                                    "name": rng.choice([None, "c"]), "stream": "family:%s:%s:%s" % (fam, enc, pattern)}})
 
@@ -122,6 +122,14 @@ def family_cases(rng):
         add("complex", "Complex", "strings/" + dt, [["str", "%r" % complex(a, b)] for a, b in cx], dt, sent, cpay)
     # datetimes (some non-midnight), dates, times, timedeltas
     dts = [rng.choice(DTIMES) for _ in range(n)]
+    # midnight with a sub-second fraction is not a date: the answer must be DateTime itself, not something narrower
+    subs = [rng.choice(["2020-01-01T00:00:00.250", "2021-05-06T00:00:00.000001", "1999-12-31T00:00:00.5"]) for _ in range(n)]
+    add("datetime", "DateTime", "datetime64[ns] sub-second midnight", [["dt", v] for v in subs], "datetime64[ns]", [["NaT"]], None, exact=True)
+    for dt, sent in (("object", [["none"]]), ("str", [["none"]])):
+        add("datetime", "DateTime", "strings sub-second midnight/" + dt, [["str", v.replace("T", " ")] for v in subs], dt, sent, None, exact=True)
+    if not all(v.endswith("00:00:00") for v in dts):
+        add("datetime", "DateTime", "datetime64[ns] exact", [["dt", v] for v in dts], "datetime64[ns]", [["NaT"]], None, exact=True)
+    add("float", "Float", "float64 exact", [["float", v] for v in fl], "float64", [["nan"]], fpay(fl), exact=True)
     add("datetime", "DateTime", "datetime64[ns]", [["dt", v] for v in dts], "datetime64[ns]", [["NaT"]], None)
     add("datetime", "DateTime", "datetime64[s]", [["dt", v] for v in dts], "datetime64[s]", [["NaT"]], None)
     add("datetime", "DateTime", "tz-aware", [["dt", v] for v in dts], ["datetimetz", "Europe/Amsterdam"], [["NaT"]], None)
@@ -195,6 +203,10 @@ def check(case):
         if case["type"] not in p:
             add("%s:%s:%s:not-recognised:%s" % (case["family"], enc_kind, withnull, p[-1]),
                 "%s as %s (%s missing values) inferred as %s, expected %s on the path" % (case["family"], case["enc"], case["nulls"], p, case["type"]))
+            continue
+        if case.get("exact") and p[-1] != case["type"]:
+            add("%s:%s:%s:too-specific:%s" % (case["family"], enc_kind, withnull, p[-1]),
+                "%s as %s (%s missing values) inferred as %s: narrower than the values allow (expected %s)" % (case["family"], case["enc"], case["nulls"], p, case["type"]))
             continue
         if case["expect"] is not None and isinstance(data, pd.Series):
             col, _ = alpha.column(data)
